@@ -2,6 +2,7 @@ package main
 
 import (
 	"encoding/json"
+	"math/big"
 	"flag"
 	"fmt"
 	"os"
@@ -39,6 +40,8 @@ type Check struct {
 	curN  int
 	notes []string
 	extra map[string]any
+	paths, pathsGated *big.Int
+	pathTargets       int
 }
 
 func (c *Check) add(o Obligation) {
@@ -333,6 +336,13 @@ func (c *Check) writeEvidence(pi *propInfo, start time.Time, discharged, nviol i
 		"known_findings":      knownList,
 		"notes":               c.notes,
 	}
+	if c.Tier == "thorough" {
+		if c.paths != nil {
+			cov["paths_enumerated"] = map[string]any{"gate_targets": c.pathTargets, "acyclic_paths_to_targets": c.paths.String(), "paths_crossing_a_good_edge": c.pathsGated.String(),
+				"note": "exact counts by dynamic programming over each function's acyclic CFG skeleton (back edges removed); per gate obligation all paths to the target are covered"}
+		}
+		cov["cha_cross_check"] = c.chaCrossCheck()
+	}
 	for k, v := range c.extra {
 		cov[k] = v
 	}
@@ -388,3 +398,36 @@ func siteKey(p *Prog, ci ssa.CallInstruction, nth int) string {
 }
 
 func join(ss []string) string { return strings.Join(ss, ", ") }
+
+// chaCrossCheck (thorough tier): the effect sets of the daemon roots with dynamic calls resolved by the
+// coarser CHA call graph instead of VTA. Differences are recorded; the verdict uses VTA (sound for code
+// without reflection, assumption A3/A4), CHA is an over-approximation cross-check.
+func (c *Check) chaCrossCheck() any {
+	type row struct {
+		Root              string `json:"root"`
+		VTA               int    `json:"effects_vta"`
+		CHA               int    `json:"effects_cha"`
+		ExtraMutatingCHA  int    `json:"extra_mutating_effects_under_cha"`
+	}
+	var rows []row
+	cha := NewEffects(c.p)
+	cha.useCHA = true
+	for _, r := range c.DaemonRoots() {
+		a := c.eff.Collect(r.Fn, WalkOpts{})
+		b := cha.Collect(r.Fn, WalkOpts{})
+		have := map[string]bool{}
+		for _, e := range a {
+			have[e.String()] = true
+		}
+		extra := 0
+		seen := map[string]bool{}
+		for _, e := range b {
+			if !have[e.String()] && !seen[e.String()] && (sqlMutating(e) || dcsWrite(e)) {
+				seen[e.String()] = true
+				extra++
+			}
+		}
+		rows = append(rows, row{r.Name, len(a), len(b), extra})
+	}
+	return rows
+}
